@@ -340,3 +340,50 @@ def finish(ctx: Ctx) -> int:
               f'distinct outcomes={distinct_outcomes} < {ctx.min_outcomes})')
         return 2
     return rc
+
+
+def run_watched(cmd, env=None, cwd=None, stall_seconds=120, wall_cap=7200):
+    """Run a child process without a wall-clock verdict: the child is declared STUCK only if it consumes (almost) no
+    CPU time - less than 1 % of one core - over a window of `stall_seconds` (all its threads blocked: a deadlock; the
+    background thread of a sanitizer runtime stays below that), which a merely starved process on a loaded machine
+    does not show; `wall_cap` is a last resort and a harness error, never a verdict.
+    Returns (returncode | 'stalled', stdout, stderr)."""
+    import subprocess  # pylint: disable=import-outside-toplevel
+    import tempfile  # pylint: disable=import-outside-toplevel
+    import time  # pylint: disable=import-outside-toplevel
+    with tempfile.TemporaryFile('w+') as fout, tempfile.TemporaryFile('w+') as ferr:
+        proc = subprocess.Popen(cmd, env=env, cwd=cwd, stdout=fout, stderr=ferr, text=True)  # pylint: disable=consider-using-with
+
+        def cpu_ticks():
+            try:
+                with open(f'/proc/{proc.pid}/stat', encoding='utf-8') as fh:
+                    fields = fh.read().rsplit(')', 1)[1].split()
+                return int(fields[11]) + int(fields[12])        # utime + stime of all threads
+            except (OSError, IndexError, ValueError):
+                return None
+        start = time.time()
+        win_ticks, win_start = cpu_ticks() or 0, time.time()
+        verdict = None
+        hz = os.sysconf('SC_CLK_TCK') if hasattr(os, 'sysconf') else 100
+        while True:
+            try:
+                proc.wait(timeout=2)
+                break
+            except subprocess.TimeoutExpired:
+                pass
+            now = time.time()
+            if now - win_start >= stall_seconds:
+                ticks = cpu_ticks()
+                if ticks is not None and (ticks - win_ticks) < 0.01 * hz * (now - win_start):
+                    verdict = 'stalled'
+                    proc.kill()
+                    proc.wait()
+                    break
+                win_ticks, win_start = (ticks if ticks is not None else win_ticks), now
+            if now - start > wall_cap:
+                proc.kill()
+                proc.wait()
+                raise HarnessError(f'child process exceeded the wall-clock cap of {wall_cap}s: {cmd[0]}')
+        fout.seek(0)
+        ferr.seek(0)
+        return (verdict or proc.returncode), fout.read(), ferr.read()
